@@ -14,8 +14,15 @@ OVERLAP = "gbasis.integrals.overlap.Overlap.construct_array_contraction"
 
 
 def screened_if(ex, st):
-    """`if is_integral_screened(...): return np.zeros(...)` - the screened block is C20's; skip it here."""
-    return isinstance(st.test, ast.Call) and ast.unparse(st.test.func).endswith("is_integral_screened")
+    """`if is_integral_screened(...): return np.zeros(...)` - the screened block is C20's; skip it here.  Any other guard whose whole
+    body returns a block of zeros is a shortcut too: whether it is admissible is decided by the MPT rule, the recursion is analysed
+    on the path that does not take it."""
+    if isinstance(st.test, ast.Call) and ast.unparse(st.test.func).endswith("is_integral_screened"):
+        return True
+    if not st.orelse and len(st.body) == 1 and isinstance(st.body[0], ast.Return) and isinstance(st.body[0].value, ast.Call):
+        d = ast.unparse(st.body[0].value.func)
+        return d in ("np.zeros", "numpy.zeros", "np.zeros_like", "numpy.zeros_like")
+    return False
 
 
 def norm_prim_rule(repo, R):
@@ -225,15 +232,17 @@ def run(repo, R):
     for _w in ['gbasis.integrals.overlap.overlap_integral', 'gbasis.integrals.overlap_asymm.overlap_integral_asymmetric']:
         _wf = repo.func(_w)
         R.note_function(_wf.qualname)
-        check_wrapper_inputs(repo, _wf, R)
+        # the screening tolerance is C20's subject: dropping or replacing it changes which blocks are screened, not the exactness of
+        # the unscreened overlap this property is about
+        check_wrapper_inputs(repo, _wf, R, ignore=("tol_screen",))
         if _wf.name.endswith("_asymmetric"):
             from .c09 import check_asym_wrapper
             check_asym_wrapper(repo, _wf, R)
         else:
-            check_wrapper_dispatch(repo, _wf, R, "DISPATCH")
+            check_wrapper_dispatch(repo, _wf, R, "DISPATCH", ignore_kw=("tol_screen",))
     R.rule("MPT", "every returned block of the overlap kernel is derived from the recursion; the only shortcut is the documented screening")
     from .mpt import must_pass_through
-    must_pass_through(repo, R, repo.func(OVERLAP), allowed_shortcuts=("is_integral_screened",))
+    must_pass_through(repo, R, repo.func(OVERLAP), allowed_shortcuts=("is_integral_screened",), none_scope=("tol_screen",))
     R.rule("S0", "start of the recursion = sqrt(pi/p) exp(-mu (A-B)^2)")
     R.rule("Sa", "Obara-Saika step on the first index: M[i] = (P-A) M[i-1] + (i-1)/(2p) M[i-2]")
     R.rule("Sb", "Obara-Saika step on the second index with the coupling i/(2p) M[i-1, j-1]")
